@@ -61,6 +61,8 @@ def g_err():
         [('S', ['a']), ('S', ['(', 'B', ')']), ('B', ['S']), ('B', ['B', 'S']), ('B', ['error'])], note='error deep inside brackets'))
     G.append(Grammar('ersr', ['root', 'stmt'], ['x', ';'], 'root', [('root', ['stmt', ';']), ('root', ['stmt', 'error', ';']), ('stmt', ['x']), ('stmt', ['x', 'error'])],
                      note='shift/reduce conflict on the error token itself (resolved as shift)'))
+    G.append(Grammar('er5', ['S', 'T'], ['x', ';'], 'S', [('S', ['S', 'T']), ('S', []), ('T', ['x', ';']), ('T', ['error'])],
+                     note='a rule that ENDS in the error symbol at top level: after discarding the last term of the input the parser can still act on <eof>'))
     G.append(Grammar('er4', ['S', 'I'], ['a', 'b', ';'], 'S',
         [('S', ['I']), ('S', ['S', ';', 'I']), ('I', ['a', 'b']), ('I', ['error', 'b'])], note='error followed by a synchronising term'))
     return G
@@ -150,3 +152,5 @@ def t_sets():
 
 # units on which a recorded, unrepaired defect of /repo manifests (known_findings.json: D5, fixed-size stack capacity): they are run only by the checks that own the finding (C06, C12)
 KNOWN_DEFECT_UNITS = {'nrun4'}
+# units that only build with a dedicated harness variant (dflt: aggregate value type for functor-less multi-symbol rules, run by C02 in variant 'agg'): not part of the plain all-family selections
+SPECIAL_VARIANT_UNITS = {'dflt'}
